@@ -33,6 +33,12 @@ Classification (known findings must be narrow): a life is *tainted "midcmd"* iff
          the next one (= the receiver was busy sending a link command); *tainted "race"* iff a header ended within 6
          cycles before link-down or while down, or an accepted header's LGOOD had not been sent yet at link-down.  A violation in a tainted life is reported under the single mechanism
          of that class (detail carries the symptom); violations in clean lives carry the symptom as mechanism.
+Configuration: buffer_count drawn per case from {4 (half), 1, 2, 8}; the advertisement must carry `count` LCRDs (index k mod count).
+Additions after the coverage audit: 1-2 cycle `enable` glitches while the receiver is idle (pattern_glitch); requests still
+         scheduled are cancelled when the link goes down, and any LRTY / LUP / LXU that overtakes the advertisement LGOOD
+         without its request input having been pulsed in this link life is a violation (`stale_command_before_advert_lgood`:
+         lrty_pending / keepalive_pending must not survive the restart).  LXU etc. *after* the advertisement stay unjudged
+         (the statement names only receive state).
 Deviation from DESIGN.md section 7: usb_reset is not pulsed while `enable` stays high (luna's link layer never does that:
          `in_reset` always comes with / during a link-down period); the systematic sweep is realised as "provoking event + swept
          offset + PHY stall" with mandatory coverage bins per command and per phase instead of a literal per-cycle loop.
@@ -59,19 +65,19 @@ REQUIRED_BINS = ["crash_during_LGOOD", "crash_during_LCRD", "crash_during_LBAD",
                  "crash_with_buffered_headers", "crash_while_ignoring", "crash_with_lbad_pending", "crash_with_acks_pending",
                  "crash_with_credits_pending", "crash_with_nonzero_sequence", "crash_with_credit_index_nonzero",
                  "crash_with_reset", "crash_disable_only", "crash_header_racing", "pattern_disable", "pattern_warm_reset",
-                 "pattern_hot_reset_level", "pattern_hot_reset_strobe", "crash_during_advert", "probe_after_reentry",
+                 "pattern_hot_reset_level", "pattern_hot_reset_strobe", "pattern_glitch", "crash_during_advert", "probe_after_reentry",
                  "target_lgood", "target_lcrd", "target_lbad", "target_lrty", "target_lup", "target_lxu", "target_advert",
-                 "target_idle", "target_burst", "target_race"]
+                 "target_idle", "target_burst", "target_race", "buffer_count_1", "buffer_count_2", "buffer_count_4", "buffer_count_8"]
 REQUIRED_EVENTS = ["cycles_monitored", "link_up_events", "link_down_events", "reentries_judged_clean", "advert_lgood_checked",
                    "advert_complete", "lgood_checked", "lcrd_for_freed_buffer_checked", "headers_consumed",
                    "queue_valid_cycles_compared", "link_commands_decoded", "sessions_quiesced"]
-ASSUMPTIONS = ["the link stays down >= 24 cycles and until source has been idle for 6 cycles; source.ready is granted eventually while down",
+ASSUMPTIONS = ["the link stays down >= 24 cycles and until source has been idle for 6 cycles (except 1-2 cycle glitches, generated only while the receiver is idle); source.ready is granted eventually while down",
                "usb_reset is only asserted together with / during a link-down period (as luna's link layer does), and is low when enable rises",
                "no strobe inputs (retry_required, keepalive_required, ...) are pulsed while the link is down",
-               "LUP / LXU / LRTY after re-entry are not judged; commands sent while the link is down are not judged"]
+               "LUP / LXU / LRTY after the advertisement LGOOD are not judged (before it they need a request pulsed in this link life); commands sent while the link is down are not judged"]
 
 READY = [("always",), ("always",), ("random", 0.5), ("random", 0.25), ("bursty", 6, 6), ("bursty", 14, 3), ("random", 0.85)]
-TARGETS = ["lgood", "lgood", "lcrd", "lcrd", "lbad", "lbad", "lrty", "lrty", "lup", "lup", "lxu", "lxu", "advert", "advert", "idle",
+TARGETS = ["lgood", "lgood", "lcrd", "lcrd", "lbad", "lbad", "lrty", "lrty", "lup", "lup", "lxu", "lxu", "advert", "advert", "idle", "idle",
            "burst", "burst", "race", "race", "random"]
 
 
@@ -79,7 +85,7 @@ class Holder:
     eng = None
 
 
-def build(max_cycles):
+def build(max_cycles, nbuf=4):
     from amaranth import Elaboratable, Module, Signal, ResetInserter
     from luna.gateware.usb.usb3.link.receiver import HeaderPacketReceiver
     import random
@@ -87,7 +93,7 @@ def build(max_cycles):
 
     class Wrap(Elaboratable):
         def __init__(self):
-            self.dut = HeaderPacketReceiver()
+            self.dut = HeaderPacketReceiver(buffer_count=nbuf)
             self.hard_reset = Signal()
 
         def elaborate(self, platform):
@@ -102,9 +108,9 @@ def build(max_cycles):
     return wrap, b
 
 
-def new_session(wrap, b, rng, res, holder):
+def new_session(wrap, b, rng, res, holder, nbuf=4):
     from rv.ref.c37_link import Engine
-    eng = Engine(wrap.dut, b, rng, res, PROPERTY)
+    eng = Engine(wrap.dut, b, rng, res, PROPERTY, nbuf=nbuf)
     holder.eng = eng
     b.set(wrap.hard_reset, 1)
     yield
@@ -253,6 +259,7 @@ def crash(eng, rng, res, t_crash, cfg):
     if eng.dead:
         return
     t0 = b.cycle + 1
+    eng.strobes.clear()                  # nothing is requested while the link is down
     if hold is not None:
         eng.src_hold_until = hold
     if pattern == "warm_reset":
@@ -292,6 +299,34 @@ def crash(eng, rng, res, t_crash, cfg):
     yield from eng.tick(2)
 
 
+def glitch(eng, rng, res):
+    """`enable` low for one or two cycles while the receiver has nothing to send and nothing on the wire"""
+    m = eng.model
+    eng.q_profile = ("never",)
+    yield from eng.wait_sink_idle(extra=2)
+    n = quiet = 0
+    while quiet < 12 and n < 400 and not eng.dead:
+        idle = (not m.lgood_due and not m.lbad_due and m.lcrd_sent == eng.nbuf + m.pops and eng.advert is None
+                and eng.src_idle_run >= 6 and not eng.strobes and not eng.txq)
+        quiet = quiet + 1 if idle else 0
+        yield from eng.tick()
+        n += 1
+    if eng.dead or quiet < 12:
+        return
+    # LUP / LXU requested long ago have been sent by now (12 idle cycles with the PHY ready at least 6 times)
+    eng.src_profile = ("always",)
+    yield from eng.tick(8)
+    if eng.src_idle_run < 6:
+        return
+    eng.enable_level = 0
+    yield from eng.tick(rng.randint(1, 2))
+    eng.enable_level = 1
+    eng.q_profile = rng.choice(READY)
+    eng.src_profile = rng.choice(READY)
+    yield from eng.tick(2)
+    res.bin("pattern_glitch")
+
+
 def scenario(eng, rng, res, cfg):
     b = eng.b
     yield from eng.tick(rng.randint(0, 6))
@@ -328,6 +363,9 @@ def scenario(eng, rng, res, cfg):
             k = rng.randint(0, 6)                              # dispatch .. framing word .. command word (PHY ready)
         else:
             k = rng.randint(0, 14)
+        if target == "idle" and rng.random() < 0.6:
+            yield from glitch(eng, rng, res)
+            continue
         t_crash = max(b.cycle + 1, t_event + k)
         if 0.3 <= stall < 0.5 and target not in ("race", "random"):
             eng.src_hold_until = t_crash + rng.randint(0, 12)  # the framing word will wait until (after) the crash
@@ -371,17 +409,23 @@ def draw_cfg(rng):
 SESSIONS = 5
 
 
-def run_case(rng, tier, res):
-    wrap, b = build(SESSIONS * 20000)
+BUFFER_COUNTS = [4, 4, 4, 4, 4, 4, 4, 4, 1, 1, 2, 2, 2, 8, 8, 8]      # powers of two only, see docstring
+
+
+def run_case(rng, tier, res, nbuf=None):
+    nbuf = nbuf or rng.choice(BUFFER_COUNTS)
+    wrap, b = build(SESSIONS * 20000, nbuf)
     holder = Holder()
-    res.desc = {"sessions": []}
+    res.desc = {"buffer_count": nbuf, "sessions": []}
+    res.sig("buffer_count", nbuf)
+    res.bin("buffer_count_%d" % nbuf)
 
     def main():
         for i in range(SESSIONS):
             cfg = draw_cfg(rng)
             res.desc["sessions"].append(cfg)
             res.sig(sorted(cfg.items()))
-            eng = yield from new_session(wrap, b, rng, res, holder)
+            eng = yield from new_session(wrap, b, rng, res, holder, nbuf)
             eng.src_profile = cfg["src"]
             eng.q_profile = cfg["q"]
             eng.filler_invalid_p = cfg["filler_invalid_p"]
